@@ -59,6 +59,19 @@ func workload(seed int64) []op {
 	ops := []op{}
 	n := 8 + rng.Intn(5)
 	initAt := rng.Intn(3)
+	if seed%4 == 3 {
+		// every seed id is in the store already when Init runs for the first time: Init adds nothing, and
+		// is still the one initialisation of this store - seeds deleted afterwards stay deleted
+		ops = append(ops, op{Op: "create", ID: "s1", V: "v100"}, op{Op: "create", ID: "s2", V: "v101"}, op{Op: "init", Seeds: seeds})
+		for i := 3; i < n; i++ {
+			if rng.Intn(3) == 0 {
+				ops = append(ops, op{Op: "delete", ID: []string{"s1", "s2"}[rng.Intn(2)]})
+				continue
+			}
+			ops = append(ops, op{Op: []string{"create", "update", "delete"}[rng.Intn(3)], ID: ids[rng.Intn(len(ids))], V: fmt.Sprintf("v%d", i)})
+		}
+		return ops
+	}
 	for i := 0; i < n; i++ {
 		if i == initAt || (i > 4 && rng.Intn(7) == 0) {
 			ops = append(ops, op{Op: "init", Seeds: seeds})
